@@ -246,3 +246,15 @@ package check
 //@   ensures[slash] implies(op == t.IDXBinarySlash && result1 == nil && old(factsHold(q)), wval(lhs) >= 0 && wval(rhs) > 0 && inR(result0, wval(lhs) / wval(rhs)))
 //@   ensures[shl] implies(op == t.IDXBinaryShiftL && result1 == nil && old(factsHold(q)), wval(rhs) >= 0 && inR(result0, wval(lhs) * pow2(wval(rhs))))
 //@   modifies *q
+
+// proveReasonRequirementForRHSLength (used for "index < length" and "slice bound <=
+// length"): nil means "lhs op rhs" follows from the facts, possibly through a fact
+// "rhs >= const" and a proof of "lhs op const".
+//@ func proveReasonRequirementForRHSLength
+//@   prop C01
+//@   requires q != nil && isCmp(op) && lhs != nil && rhs != nil && forall(k, 0, len(q.facts), q.facts[k] != nil)
+//@   ensures[sound] implies(old(factsHold(q)) && result == nil, holds(op, wval(lhs), wval(rhs)))
+//@   ensures unchanged(q.facts) && unchanged(mem(q.facts))
+//@   modifies *q
+//@   loop 1 invariant -1 <= rangeindex && rangeindex < len(q.facts) && unchanged(q.facts) && unchanged(mem(q.facts))
+//@   loop 1 decreases len(q.facts) - rangeindex
